@@ -175,19 +175,28 @@ def gen_fileset(tape, side, H):
     fs["end_style"] = tape.pick(["minus1", "touch"], f"end{side}")
     if fs["tmpl"] == "daily_partial" and fs["L"] == 24:
         fs["end_style"] = "minus1"       # a 24 h partial end would equal start
+    # irregular: some files last 2-3 slots and so overlap / contain the
+    # following files of their own fileset (only where the name spells the end)
+    fs["irregular"] = not TEMPLATES[fs["tmpl"]][1] and fs["L"] <= 6 and \
+        tape.flag(f"irregular{side}", 1, 4)
     files = []
     pid = 0
     for k in range(H // fs["L"]):
         if files and tape.flag(f"gap{side}", 1, 6):
             continue
+        mult = 1
+        if fs["irregular"]:
+            mult = tape.pick([1, 1, 2, 3], f"mult{side}")
+            day_left = 24 - (k * fs["L"]) % 24          # stay inside the day directory
+            mult = max(1, min(mult, day_left // fs["L"]))
         npts = tape.count(1, 4, f"np{side}", (1, 2))
         pts = []
         for _ in range(npts):
-            off = tape.choice(fs["L"] * 3600, f"t{side}")
+            off = tape.choice(fs["L"] * mult * 3600, f"t{side}")
             c = tape.choice(len(CLUSTERS), f"c{side}")
             j = tape.choice(4, f"j{side}")
             pts.append([off, c, j])
-        files.append({"k": k, "pts": pts})
+        files.append({"k": k, "pts": pts, "mult": mult})
     fs["files"] = files
     return fs
 
@@ -236,8 +245,9 @@ def gen_workload(tape):
 
 def _times(w, side, k):
     fs = w[side]
+    mult = next((f.get("mult", 1) for f in fs["files"] if f["k"] == k), 1)
     t0 = BASE + timedelta(hours=k * fs["L"] + fs.get("shift_h", 0))
-    t1 = t0 + timedelta(hours=fs["L"])
+    t1 = t0 + timedelta(hours=fs["L"] * mult)
     if fs["end_style"] == "minus1":
         t1 -= timedelta(seconds=1)
     return t0, t1
